@@ -143,7 +143,8 @@ class TLSSession(Session):
         self._host = host
         self._socket = ssl_sock
         self._connected = True
-        self._post_connect()
+        # the caller's timeout also bounds the wait for the server's <hello>
+        self._post_connect(timeout)
 
     def _transport_read(self):
         data = self._socket.recv(BUF_SIZE)
